@@ -21,9 +21,10 @@ pub fn prop() -> Prop {
             Sub::enumerate("circles", circles),
             Sub::enumerate("ellipses", ellipses),
             Sub::enumerate("rrect_equivalences", rrect_equiv),
-            Sub::tape("rrect_random", 24, 200_000, 3_000_000, rrect_random),
+            Sub::tape("rrect_random", 24, 200_000, 10_000_000, rrect_random),
+            Sub::tape("large_round", 12, 3_000, 150_000, large_round),
             Sub::enumerate("sector_grid", sector_grid).with_fp(),
-            Sub::tape("sectors_random", 10, 60_000, 900_000, sectors_random).with_fp(),
+            Sub::tape("sectors_random", 10, 60_000, 3_000_000, sectors_random).with_fp(),
         ],
     }
 }
@@ -404,5 +405,27 @@ fn sectors_random(d: &mut Dec, cx: &mut Cx) -> Res {
     cx.class(if sweep.abs() >= 360.0 { "full" } else if sweep.fract() != 0.0 || start.fract() != 0.0 { "fractional" } else { "integer" });
     check_sector_arc(tl, dia, start, sweep)?;
     cx.nontrivial(dia >= 5 && sweep.abs() < 360.0 && (sweep % 90.0 != 0.0));
+    Ok(())
+}
+
+
+/// Circles and ellipses of 100..=500 px against the ideal curve (the enumerations stop at 128 / 64).
+fn large_round(d: &mut Dec, cx: &mut Cx) -> Res {
+    let kind = if d.bool() { 1 } else { 2 };
+    let s = gen::large_shape(d, kind, 100, 500);
+    cx.describe(|| format!("{:?}", s));
+    cx.class(s.kind());
+    cx.nontrivial(true);
+    match s {
+        Shape::Circle(c) => {
+            check_ellipse_like("circle", c.top_left, c.diameter, c.diameter, &|p| c.contains(p))?;
+            let e = Ellipse::new(c.top_left, Size::new(c.diameter, c.diameter));
+            ensure!(c.points().eq(e.points()), "circle:differs_from_ellipse", "Circle d={} and the equal-axes Ellipse differ", c.diameter);
+        }
+        Shape::Ellipse(e) => {
+            check_ellipse_like("ellipse", e.top_left, e.size.width, e.size.height, &|p| e.contains(p))?;
+        }
+        _ => unreachable!(),
+    }
     Ok(())
 }
